@@ -46,6 +46,21 @@ def client_hello(sni: str | None) -> bytes:
     return b"\x16\x03\x01" + struct.pack("!H", len(hs)) + hs
 
 
+def tls_record(ctype: int, payload: bytes) -> bytes:
+    return bytes([ctype, 3, 3]) + struct.pack("!H", len(payload)) + payload
+
+
+# change_cipher_spec (middlebox compatibility) + application_data (early data): non-handshake records
+EARLY_RECORDS = tls_record(0x14, b"\x01") + tls_record(0x17, bytes(range(100, 121)))
+
+
+def fragment_hello(ch: bytes, at: int) -> bytes:
+    """The same ClientHello carried in two handshake records (RFC 8446 5.1 allows fragmentation)."""
+    body = ch[5:]
+    at = max(1, min(at, len(body) - 1))
+    return ch[:3] + struct.pack("!H", at) + body[:at] + ch[:3] + struct.pack("!H", len(body) - at) + body[at:]
+
+
 def host_line(syntax: str, value: str) -> bytes:
     return {
         "plain": f"Host: {value}\r\n",
@@ -73,8 +88,9 @@ def tokens_for(kind: str, cont: str | None, syntax: str) -> list[dict]:
         return toks
     if kind == "tls":
         ch = client_hello(cont)
+        # t5: the records a TLS 1.3 0-RTT client sends right behind its ClientHello (may share a segment with its end)
         return [tok("t1", ch[:2], "lt3"), tok("t2", ch[2:5], "in_hello"), tok("t3", ch[5:40], "in_hello"),
-                tok("t4", ch[40:], "hello_done")]
+                tok("t4", ch[40:], "hello_done"), tok("t5", EARLY_RECORDS, "early_data")]
     return [tok("o1", b"SSH-2.0-x", "other"), tok("o2", b"_1.0\r\n", "other")]
 
 
@@ -490,8 +506,17 @@ def cut_class(kind: str, flight: bytes, off: int) -> str:
             return "in_reqline"
         return "head_done" if off >= len(flight) else "in_head"
     if kind == "tls":
-        return "hello_done" if off >= len(flight) else "in_hello"
+        hello_end = _hello_end(flight)
+        return "in_hello" if off < hello_end else ("hello_done" if off == hello_end else "early_data")
     return "other"
+
+
+def _hello_end(flight: bytes) -> int:
+    """Offset behind the last handshake record of the flight (own reader of the TLS record layer)."""
+    off = 0
+    while off + 5 <= len(flight) and flight[off] == 0x16:
+        off += 5 + struct.unpack("!H", flight[off + 3: off + 5])[0]
+    return min(off, len(flight))
 
 
 def random_scenario(rng: random.Random) -> dict:
@@ -537,6 +562,13 @@ def run_random(sc: dict) -> list[dict]:
         case["excl"], case["why"] = oracle(sc["rules"], (case["host"], case["port"]), None, hv)
     elif kind == "tls":
         flight = client_hello(cont)
+        if rng.random() < 0.3:
+            flight = fragment_hello(flight, rng.randint(1, len(flight) - 6))
+        if rng.random() < 0.6:  # records behind the ClientHello: CCS and/or early data, possibly several
+            tail = [tls_record(0x14, b"\x01")] if rng.random() < 0.7 else []
+            tail += [tls_record(0x17, bytes(rng.randrange(256) for _ in range(rng.randint(1, 40))))
+                     for _ in range(rng.randint(0 if tail else 1, 2))]
+            flight += b"".join(tail)
     else:
         flight = rng.choice([b"SSH-2.0-OpenSSH_9\r\n", bytes(rng.randrange(256) for _ in range(rng.randint(3, 30))),
                              b"\x00\x00\x00\x10hello world 1234", b"EHLO x\r\n"])
